@@ -50,6 +50,14 @@ def exceptToOption {ε α} : Except ε α → Option α
   | .ok a => some a
   | .error _ => none
 
+/-- the resources whose values a node reports: its own, or — for a repetition wrapper — the closed forms over the single
+    child's resources (`_process_repeated_resources`) -/
+def repResourcesV (rep : Option Repetition) (rs : List Resource) (sigs : List (String × List (String × ResTy))) :
+    Option (List Resource) :=
+  match rep with
+  | none => some rs
+  | some rp => exceptToOption (processRepeatedResources rp rs sigs)
+
 mutual
 /-- value of a node given the values handed to its inputs (`givenV`) and the top-level point (`top`) -/
 def denoteV (A : Alg V) (top : Env V) (givenV : VDict V) : Routine → Option (NVal V)
@@ -60,9 +68,7 @@ def denoteV (A : Alg V) (top : Env V) (givenV : VDict V) : Routine → Option (N
     (exceptToOption (paramTreeFromSizes (connectionsFrom cs none) (sizesOfV portsIn))).bind fun upd =>
     (denoteChildrenV A top cs (pm.mergeUpd upd) ch).bind fun (pm2, cvs) =>
     let selfV := Dict.merge pm2.self (childrenVariablesV cvs)
-    (match rep with
-      | none => some rs
-      | some rp => exceptToOption (processRepeatedResources rp rs (sigsV cvs))).bind fun resources =>
+    (repResourcesV rep rs (sigsV cvs)).bind fun resources =>
     some { name := name,
            ports := portsIn ++ portValsV A top selfV (Port.portsOf ps [.output]),
            resources := resources.map fun (r : Resource) => (r.name, r.ty, instV A top selfV r.value),
